@@ -23,7 +23,7 @@ PROPS = {
              "unterminated ${ and %get(, trailing backslash), %dirscan over a simulated directory whose listing is modelled exactly (one run in ten makes the listing 20474..20486 or 41000 bytes long with 100..255-character names), "
              "plus values padded to 20300..20470 characters so replacements reach the 20 kB limit; HOME set/unset/empty, 7..12 built-ins; "
              "the argument is an exact CONFIG_BUFF-byte simulated block; oracle = reference expander written from the stated rules (value checked unless a don't-care construct occurs), NUL-termination and length, "
-             "and a second execution of the whole plan under different heap and stack garbage that must give byte-identical results; Since rounds 10-12: the %name ) spelling and variable-deleting spellings (value don't-care), fdopen()/fchmod() refusals, built-ins registered between expansions. distinct = distinct trace hash; non-trivial = >= 3 ops",
+             "and a second execution of the whole plan under different heap and stack garbage that must give byte-identical results; Since rounds 10-12: the %name ) spelling and variable-deleting spellings (value don't-care), fdopen()/fchmod() refusals, built-ins registered between expansions. Since round 16: variable names that begin with or hold a byte above 0x7f next to plain ones. distinct = distinct trace hash; non-trivial = >= 3 ops",
              probes=["value_checked", "value_dont_care", "dollar_mid_line", "backslash_at_end", "unterminated_brace", "nested_call_depth3", "result_hits_limit", "tilde_inside_quotes", "big_directory", "dirscan_listing_modelled", "dirscan_listing_over_limit", "cut_result_is_a_prefix",
                      "random_picked_another_word", "dirscan_no_directory"]),
     "C11": P(["asan", "asanz"], 30, 900,
@@ -66,13 +66,13 @@ PROPS = {
              "plans = seeded programs (4..30 ops) over a pool of 6 objects drawn from 16 kinds (str, ustr, mbuff, objpair, tok, url, regexp, list/vector/map x array/linked_list/dlinked_list; "
              "vobj or str elements) with make/mutate/query/dup/done+re-init/del; allocator policies incl. garbage fill, immediate address reuse and far-apart placement; "
              "after dup: distinct object, same class, type() equal, observer equal; after every op: no other object's observation changed (independence), and "
-             "reflexive/antisymmetric/transitive/NULL-first comparison over all same-kind pairs of the pool; Since rounds 10-12: a second generation of mutators and queries (positions from the end, negative counts, the middle of lists, rarer regexp flags, a name service that knows the URL words), a list and its fresh copy read by position (the copy must hand out its own elements), and for array lists and vectors comp EQUAL exactly when the element sequences are the same. distinct = distinct trace hash; non-trivial = >= 3 ops",
-             probes=["extended_mutator_2", "object_is_its_own_argument", "dup", "class_checked", "comp_pair", "comp_null_first", "comp_of_equal_values", "extended_mutator", "tok_quote_characters_changed", "stream_constructor_ok",
+             "reflexive/antisymmetric/transitive/NULL-first comparison over all same-kind pairs of the pool; Since rounds 10-12: a second generation of mutators and queries (positions from the end, negative counts, the middle of lists, rarer regexp flags, a name service that knows the URL words), a list and its fresh copy read by position (the copy must hand out its own elements), and for array lists and vectors comp EQUAL exactly when the element sequences are the same. Since round 16: a container and its fresh copy are also compared element by element by which element each position holds a copy of (elements that compare equal are still told apart). distinct = distinct trace hash; non-trivial = >= 3 ops",
+             probes=["copy_compared_element_by_element", "extended_mutator_2", "object_is_its_own_argument", "dup", "class_checked", "comp_pair", "comp_null_first", "comp_of_equal_values", "extended_mutator", "tok_quote_characters_changed", "stream_constructor_ok",
                      "empty_container", "list_with_holes", "pair_without_value", "tok_evaluated", "regexp_compiled", "done", "del"]),
     "C06": P(["asan", "asanz"], 30, 900,
              "plans = seeded programs (4..60 ops) over the whole object API (16 kinds as in C05): create, fill, query (everything handed out is deleted by the caller), "
              "copy, done + re-init, property setters, re-evaluation, early deletion; the simulated allocator is the ledger: live set after deleting every object == live set before, "
-             "no double free / foreign free / use after free (ASan + allocator), element objects deleted exactly once; Since rounds 10-12: a second generation of mutators and queries (positions from the end, negative counts, the middle of lists, rarer regexp flags, a name service that knows the URL words), a list and its fresh copy read by position, and libc calls that allocate for the caller (getline, strndup, asprintf ...) inside the ledger. distinct = distinct trace hash; non-trivial = >= 3 ops",
+             "no double free / foreign free / use after free (ASan + allocator), element objects deleted exactly once; Since rounds 10-12: a second generation of mutators and queries (positions from the end, negative counts, the middle of lists, rarer regexp flags, a name service that knows the URL words), a list and its fresh copy read by position, and libc calls that allocate for the caller (getline, strndup, asprintf ...) inside the ledger. Since round 16: URL texts with components that are present but empty (a port of no digits behind a known service, an empty password, a user without host). distinct = distinct trace hash; non-trivial = >= 3 ops",
              probes=["extended_mutator_2", "object_is_its_own_argument", "set_with_own_value", "set_with_own_key", "extended_mutator", "map_list_into_given", "stream_constructor_gave_up", "property_set_to_null", "tok_tokens_handed_in",
                      "dup", "done", "del", "map_value_overwritten", "list_with_holes", "tok_reevaluated", "property_setter", "removed_element_deleted_by_caller",
                      "key_value_pair_list_deleted", "empty_container", "regexp_recompiled"]),
@@ -80,6 +80,7 @@ PROPS = {
              "plans = seeded list histories (3..40 ops over 2 slots: append, prepend, insert_at over {-len-2..len+3}, remove, remove_at, get, index, find, contains, reverse, "
              "iterator beyond the end, dup, del; keys 0..5 so duplicates are common); the same plan runs on array, linked_list and dlinked_list; after every op every list is "
              "read back completely (structure walk, count, get(i) for i in [-len-1,len], fresh iterator, to_array) and compared with an ideal sequence with holes; "
+             "since round 16 a remove that takes a later one of several equal elements is accepted only where the values that remain, in order, are those of the ideal sequence (from which the first equal element went); "
              "distinct = distinct trace hash; non-trivial = >= 3 ops",
              probes=["iterator_copied", "elements_of_two_comparable_classes", "insert_at_hole_created", "insert_at_len", "insert_at_refused", "remove_at_refused", "removed_last", "reverse_empty", "iterator_one_past_end",
                      "probe_is_own_element", "iterator_abandoned_midway",
@@ -93,22 +94,23 @@ PROPS = {
     "C04": P(["plain", "plainz"], 30, 900,
              "plans = seeded vector histories (3..40 ops over 2 slots: insert, remove (also with the stored element itself as the probe), find, contains with present/absent/below-min/above-max probes, abandoned and exhausted iterators, dup, del; keys 0..7, one plan in eight prefilled with 30..100 elements over keys 0..47); after every step a sweep of find/contains over every key; "
              "same plan on the three vector classes; after every op: structure walk, sortedness, multiset equality by element identity, count, iterator, to_array; "
+             "since round 16 one insertion in twelve hands in an object the vector already holds (held twice, removed twice, deleted once); "
              "distinct = distinct trace hash; non-trivial = >= 3 ops",
-             probes=["iterator_copied", "elements_of_two_comparable_classes", "plain_objects_gigabytes_apart", "insert_duplicate_of_max", "insert_duplicate_of_only_element", "insert_below_min", "probe_below_min", "probe_above_max", "single_element_vector", "dup_of_empty_container",
+             probes=["same_object_inserted_twice", "one_occurrence_of_two_removed", "iterator_copied", "elements_of_two_comparable_classes", "plain_objects_gigabytes_apart", "insert_duplicate_of_max", "insert_duplicate_of_only_element", "insert_below_min", "probe_below_min", "probe_above_max", "single_element_vector", "dup_of_empty_container",
                      "probe_is_own_element", "iterator_abandoned_midway", "iterator_one_past_end"]),
     "C07": P(["asan", "asanz"], 30, 900,
              "plans = seeded histories (4..40 ops, pool of 4 mbuff objects, direct functions or class-table macros) from a random constructor "
              "(empty, ptr, buff, FILE* seekable/streaming at zero/non-zero position with seeded chunking, descriptor regular-file/streaming with short reads, EINTR, EIO), "
              "all 256 byte values incl. NUL, sizes 0..13000 around the 4096-byte chunk; every object compared with an ideal byte sequence after every step; "
-             "Since rounds 10-12: FILE* sources may be stdio streams over a simulated descriptor (pipe or regular file) of which 0..4097 bytes have already been read; positions and counts reach INT_MAX, 2^32, LONG_MAX and LONG_MAX-len and their negatives. distinct = distinct trace hash; non-trivial = >= 3 ops",
+             "Since rounds 10-12: FILE* sources may be stdio streams over a simulated descriptor (pipe or regular file) of which 0..4097 bytes have already been read; positions and counts reach INT_MAX, 2^32, LONG_MAX and LONG_MAX-len and their negatives. Since round 16: formatted results of power-of-two lengths 16..8192 and one or two off. distinct = distinct trace hash; non-trivial = >= 3 ops",
              probes=["fp_over_descriptor", "fp_over_descriptor_partly_read", "self_as_argument", "argument_related_to_object", "null_pointer_with_a_length", "source_read_error",
                      "append_on_empty", "fp_seekable", "fp_streaming", "fp_seekable_nonzero_pos", "fd_regular_file", "fd_streaming", "fd_multi_chunk",
                      "stream_exactly_4096", "refused_op", "absent_byte_search", "cmp_different_lengths", "trim_all_whitespace", "done"]),
     "C01": P(["asan", "asanz"], 30, 900,
              "plans = seeded histories (4..40 ops, pool of 4 objects, str or ustr, direct functions or class-table macros) starting from a random constructor "
              "(empty, ptr, buff, num, FILE* with seeded chunking, descriptor with short reads/EINTR/EAGAIN/EIO), texts from empty to 16 KB around the 4096-byte chunk; "
-             "every object is compared with an ideal character sequence after every step; Since rounds 10-12: FILE* sources may be stdio streams over a simulated descriptor (fileno works, stdio reads ahead); positions and counts reach INT_MAX, 2^32, LONG_MAX and LONG_MAX-len and their negatives. distinct = distinct trace hash (includes allocator digest); non-trivial = >= 3 ops",
-             probes=["fp_over_descriptor", "self_as_argument", "argument_related_to_object", "counted_buffer_without_terminator", "fp_read_error",
+             "every object is compared with an ideal character sequence after every step; Since rounds 10-12: FILE* sources may be stdio streams over a simulated descriptor (fileno works, stdio reads ahead); positions and counts reach INT_MAX, 2^32, LONG_MAX and LONG_MAX-len and their negatives. Since round 16: a stream read may fail once (EINTR) and work again, with further constructions from the same stream judged exactly; formatted results of power-of-two lengths 16..8192 and one or two off. distinct = distinct trace hash (includes allocator digest); non-trivial = >= 3 ops",
+             probes=["fp_read_failed_once", "fp_constructed_after_a_read_that_failed_once", "fp_over_descriptor", "self_as_argument", "argument_related_to_object", "counted_buffer_without_terminator", "fp_read_error",
                      "append_on_empty", "fp_line_crosses_4096", "fd_multi_chunk", "refused_op", "done", "query_not_found", "trim_all_whitespace",
                      "mutator_on_empty_state", "dup_of_empty_str"]),
     "C19": P(["plain", "plainz"], 30, 900,
